@@ -6,13 +6,21 @@ Theorems: lean/JRV/Properties/C15.lean
 Tie     : extracted facts (tools/extractors/jsonclass.py) + differential correspondence of jsonclass.dump /
           jsonclass.load (result, import attempts, final state of the argument) on plain data and on
           well-formed / malformed / failing `__jsonclass__` descriptors.
-Monitor : written from the property statement: node types of the dump, JSON-serialisability with string keys,
-          load(dump(v)) == v up to container normalisation with exact primitive types, and a deep snapshot of
-          the argument before and after every call (on success and on failure).
+Monitor : written from the property statement: node types of the dump (values and dict keys), JSON-serialisability
+          with string keys, load(dump(v)) == v up to container normalisation with exact primitive types, and a deep
+          snapshot plus an identity map of the argument before and after every call (on success and on failure): the
+          same container objects with the same lengths, and — for every dict that has a "__jsonclass__" member — the
+          very same member object (`is`) afterwards.  Container sizes are heavy-tailed (a few hundred items now and
+          then); descriptors are lists, tuples, of 2, 3 or 4 items, with list or dict constructor arguments.
+Domain  : NaN and +-Infinity are outside the float domain of the models (DESIGN 3.2): the monitor runs on them (they
+          are "extreme floats" of the quantifier), the model correspondence is skipped and the cases are counted.
+          A dict key that is itself a container (tuple, frozenset) cannot be turned into a JSON node by any dump:
+          the "only dicts, lists and primitives" clause is checked for values whose dict keys are primitives.
 """
 import builtins
 import copy
 import json
+import math
 
 import gen
 import impl
@@ -20,8 +28,9 @@ import jcenv
 import pyval
 
 REQUIRED_THEOREMS = [
-    "C15_shape", "C15_roundtrip", "C15_jsonable", "C15_pure_dump", "C15_pure_load", "C15_pure_load_ok",
-    "C15_pure_load_fail", "C15_gen_typeTables", "C15_gen_loadRestores", "C15_gen_dumpNonFreshWrites",
+    "C15_shape", "C15_shape_keys", "C15_roundtrip", "C15_jsonable", "C15_primitive_exact", "C15_pure_load", "C15_pure_load_ok",
+    "C15_pure_load_fail", "C15_gen_pure_dump", "C15_gen_typeTables", "C15_gen_loadRestores",
+    "C15_gen_dumpNonFreshWrites",
 ]
 
 JC = impl.jsonrpclib.jsonclass if hasattr(impl.jsonrpclib, "jsonclass") else None
@@ -29,6 +38,7 @@ if JC is None:
     import jsonrpclib.jsonclass as JC  # noqa: E402
 
 POOL = [0, False, "", None, 10 ** 30, -0.0, 5e-324, 1.7976931348623157e308, "é", True, -7, 1.0]
+NONFINITE = [float("inf"), float("-inf"), float("nan")]
 KINDS = ["list", "tuple", "set", "frozenset", "dict", "dictk"]
 NONSTR_KEYS = [None, 7, 2.5, False, (1, "a")]
 
@@ -88,26 +98,42 @@ def leaf_stream(offset):
         i += 1
 
 
-def random_plain(rng, depth, width):
+def heavy(rng, width):
+    """A container size: mostly 0..width, now and then 9-40, rarely 100-300 (sizes are unbounded in the property)."""
+    r = rng.random()
+    if r < 0.90:
+        return rng.randint(0, width)
+    if r < 0.985:
+        return rng.randint(9, 40)
+    return rng.randint(100, 300)
+
+
+def random_plain(rng, depth, width, nonfinite=0.0):
     r = rng.random()
     if depth <= 0 or r < 0.25:
+        if nonfinite and rng.random() < nonfinite:
+            return rng.choice(NONFINITE)
         return gen.json_scalar(rng) if rng.random() < 0.7 else rng.choice(POOL)
     k = rng.choice(KINDS)
-    n = rng.randint(0, width)
+    n = heavy(rng, width)
+    if n > 8:
+        depth = min(depth, 2)  # wide containers stay shallow: the total size stays in the thousands
     if k in ("set", "frozenset"):
         items = [random_hashable(rng, depth - 1) for _ in range(n)]
         return set(items) if k == "set" else frozenset(items)
-    kids = [random_plain(rng, depth - 1, width) for _ in range(n)]
+    kids = [random_plain(rng, depth - 1, width, nonfinite) for _ in range(n)]
     if k == "list":
         return kids
     if k == "tuple":
         return tuple(kids)
     d = {}
-    for x in kids:
+    for i, x in enumerate(kids):
         if k == "dict":
             key = rng.choice(gen.KEYS) if rng.random() < 0.7 else gen.json_scalar(rng)
             if not isinstance(key, str):
                 key = "k"
+            if n > 8:
+                key = "%s%d" % (key, i)
         else:
             key = random_hashable(rng, 1)
         if key == "__jsonclass__":
@@ -131,22 +157,45 @@ def random_hashable(rng, depth):
 PRIMS = (type(None), bool, int, float, str)
 
 
-def only_json_nodes(d, path="dump"):
+def only_json_nodes(d, path="dump", keys=True):
+    """None, or the first node of the dump that is not a dict, a list or a primitive — dict keys included when `keys`
+    (a key can only be a primitive then)."""
     if type(d) in PRIMS:
         return None
     if type(d) is list:
         for i, x in enumerate(d):
-            r = only_json_nodes(x, "%s[%d]" % (path, i))
+            r = only_json_nodes(x, "%s[%d]" % (path, i), keys)
             if r:
                 return r
         return None
     if type(d) is dict:
         for k, x in d.items():
-            r = only_json_nodes(x, "%s[%r]" % (path, k))
+            if keys and type(k) not in PRIMS:
+                return "the key %r of %s is a %s" % (k, path, type(k).__name__)
+            r = only_json_nodes(x, "%s[%r]" % (path, k), keys)
             if r:
                 return r
         return None
     return "%s is a %s" % (path, type(d).__name__)
+
+
+def primitive_keys(v):
+    """Every dict key of v, at every depth (also inside keys), is a primitive."""
+    if isinstance(v, dict):
+        return all(type(k) in PRIMS for k in v) and all(primitive_keys(x) for x in v.values())
+    if isinstance(v, (list, tuple, set, frozenset)):
+        return all(primitive_keys(x) for x in v)
+    return True
+
+
+def has_nonfinite(v):
+    if type(v) is float:
+        return math.isnan(v) or math.isinf(v)
+    if isinstance(v, dict):
+        return any(has_nonfinite(k) or has_nonfinite(x) for k, x in v.items())
+    if isinstance(v, (list, tuple, set, frozenset)):
+        return any(has_nonfinite(x) for x in v)
+    return False
 
 
 def string_keys(v):
@@ -182,9 +231,9 @@ def expect_equal(orig, got, path="load(dump(v))"):
     if isinstance(orig, dict):
         if type(got) is not dict or len(got) != len(orig):
             return "%s: %r is not a dict of %d entries" % (path, got, len(orig))
-        gk = dict((pyval.enc(k, canon=True), k) for k in got)
+        gk = dict((_kenc(k), k) for k in got)
         for k, a in orig.items():
-            kk = pyval.enc(k, canon=True)
+            kk = _kenc(k)
             if kk not in gk:
                 return "%s: key %r lost or changed" % (path, k)
             r = expect_equal(a, got[gk[kk]], "%s[%r]" % (path, k))
@@ -193,16 +242,25 @@ def expect_equal(orig, got, path="load(dump(v))"):
         return None
     if type(got) is not type(orig):
         return "%s: %r (%s) came back as %r (%s)" % (path, orig, type(orig).__name__, got, type(got).__name__)
+    if type(orig) is float and math.isnan(orig):
+        return None if math.isnan(got) else "%s: nan came back as %r" % (path, got)
     if got != orig or (type(orig) is float and repr(got) != repr(orig)):
         return "%s: %r came back as %r" % (path, orig, got)
     return None
+
+
+def _kenc(k):
+    try:
+        return pyval.enc(k, canon=True)
+    except pyval.Unencodable:
+        return "unencodable:" + repr(k)
 
 
 def norm(v):
     if isinstance(v, (list, tuple)):
         return [norm(x) for x in v]
     if isinstance(v, (set, frozenset)):
-        return sorted((norm(x) for x in v), key=lambda x: pyval.enc(x, canon=True))
+        return sorted((norm(x) for x in v), key=_kenc)
     if isinstance(v, dict):
         return dict((k, norm(x)) for k, x in v.items())
     return v
@@ -227,6 +285,31 @@ def ident_map(v, acc=None):
         for x in v:
             ident_map(x, acc)
     return acc
+
+
+def jc_members(v, acc=None):
+    """[(dict object, its "__jsonclass__" member object)] for every dict reachable from v that has the member."""
+    acc = [] if acc is None else acc
+    if isinstance(v, dict):
+        if "__jsonclass__" in v:
+            acc.append((v, v["__jsonclass__"]))
+        for x in v.values():
+            jc_members(x, acc)
+    elif isinstance(v, (list, tuple, set, frozenset)):
+        for x in v:
+            jc_members(x, acc)
+    return acc
+
+
+def jc_identity_broken(members):
+    """The first dict whose "__jsonclass__" member is no longer the very object it was (None when all are)."""
+    for d, m in members:
+        if "__jsonclass__" not in d:
+            return "the member was removed from %r" % (d,)
+        if d["__jsonclass__"] is not m:
+            return "the member %r (%s) was replaced by %r (%s)" % (m, type(m).__name__, d["__jsonclass__"],
+                                                                  type(d["__jsonclass__"]).__name__)
+    return None
 
 
 def kshape(v, depth=0):
@@ -382,8 +465,9 @@ def descriptor(rng, depth):
         params = copy.deepcopy(rng.choice(PARAMS))
     d = {}
     first = rng.random() < 0.6
+    jc = descriptor_member(rng, name, params)
     if first:
-        d["__jsonclass__"] = [name, params]
+        d["__jsonclass__"] = jc
     pool = ATTRS.get(name, ["x", "y"])
     for a in rng.sample(pool, rng.randint(0, min(3, len(pool)))):
         if depth > 0 and rng.random() < 0.3:
@@ -393,8 +477,23 @@ def descriptor(rng, depth):
     if rng.random() < 0.05:
         d[rng.choice([5, None, (1, 2)])] = 1  # non-string key: setattr raises TypeError
     if not first:
-        d["__jsonclass__"] = [name, params]
+        d["__jsonclass__"] = jc
     return d
+
+
+def descriptor_member(rng, name, params):
+    """The "__jsonclass__" member: `[name, params]` mostly; load only reads [0] and [1], so a tuple, or a list / tuple
+    with further items, is accepted just as well (and must be left exactly as it is)."""
+    r = rng.random()
+    if r < 0.6:
+        return [name, params]
+    if r < 0.75:
+        return (name, params)
+    if r < 0.87:
+        return [name, params, "v2-extra"]
+    if r < 0.95:
+        return (name, params, None, {"more": [1]})
+    return [name, params, [name, params]]
 
 
 def wrap(rng, v, depth):
@@ -420,6 +519,11 @@ def systematic_descriptors():
     for n in NAMES_OK + NAMES_BAD:
         for p in PARAMS:
             yield {"__jsonclass__": [n, copy.deepcopy(p)]}
+    for n in NAMES_OK + NAMES_BAD[:4]:
+        for p in ([], {}, ["1.10"], [1], [1, [2]]):
+            yield {"__jsonclass__": (n, copy.deepcopy(p))}
+            yield {"a": 1, "__jsonclass__": [n, copy.deepcopy(p), "extra"], "r": [2]}
+            yield [{"__jsonclass__": (n, copy.deepcopy(p), "extra", None)}]
     for n, attrs in ATTRS.items():
         for a in attrs:
             yield {"__jsonclass__": [n, []], a: [1, {"k": 2}]}
@@ -474,29 +578,47 @@ def _run(ctx, env):
                 plain.append(("shape", build(t, leaf_stream(off))))
             except Unbuildable:
                 ctx.hist["shape/unbuildable (unhashable set member)"] += 1
-    for p in POOL + gen.EDGE_INTS + gen.EDGE_FLOATS + gen.EDGE_STRS:
+    for p in POOL + gen.EDGE_INTS + gen.EDGE_FLOATS + gen.EDGE_STRS + NONFINITE:
         plain.append(("leaf", p))
-    for _ in range(ctx.budget(300, 6000)):
-        plain.append(("random", random_plain(ctx.rng, ctx.rng.randint(2, 6), ctx.rng.randint(1, 5))))
+    for x in NONFINITE:
+        plain.append(("nonfinite", [x, {"k": (x, 1.5)}, (x,)]))
+    for _ in range(ctx.budget(1200, 6000)):
+        plain.append(("random", random_plain(ctx.rng, ctx.rng.randint(2, 6), ctx.rng.randint(1, 5),
+                                             nonfinite=0.05 if ctx.rng.random() < 0.1 else 0.0)))
+    # wide containers of every kind (in-place conversion of "large" containers must not go unnoticed)
+    for n in (9, 17, 64, 257):
+        for mk in (list, tuple, set, frozenset):
+            plain.append(("wide", mk((i, "s%d" % i) for i in range(n))))
+        plain.append(("wide", dict(("k%d" % i, (i, [i])) for i in range(n))))
+        plain.append(("wide", [[(j,) for j in range(n)], {"k": [set([j]) for j in range(n)]}]))
 
     lines = []
     expect = []
 
+    nonfinite_cases = 0
+    container_key_cases = 0
     for origin, v in plain:
         try:
             vtext = pyval.enc(v)
         except pyval.Unencodable:
-            continue
+            # NaN / +-Infinity: outside the float domain of the model (DESIGN 3.2) — the monitor runs all the same
+            if not has_nonfinite(v):
+                continue
+            vtext = None
+            nonfinite_cases += 1
         before = snapshot(v)
         ids_before = ident_map(v)
         k, d = impl.outcome(JC.dump, v, config=cfg)
-        case = {"value": repr(v)[:300], "via": "dump"}
+        case = {"value": repr(v)[:300], "via": "dump", "value_enc": vtext, "value_py": repr(v) if vtext is None else None}
         if snapshot(v) != before or ident_map(v) != ids_before:
             ctx.violate(case, "dump modified its argument: %s -> %s" % (before[:200], snapshot(v)[:200]), key="dump-mutates")
         if k != "ok":
             ctx.violate(case, "dump raised %s on plain data" % type(d).__name__, key="dump-raises")
             continue
-        m = only_json_nodes(d)
+        prim_keys = primitive_keys(v)
+        if not prim_keys:
+            container_key_cases += 1
+        m = only_json_nodes(d, keys=prim_keys)
         if m:
             ctx.violate(case, "dump output has a node that is not dict/list/primitive: " + m, key="dump-shape")
         if string_keys(v):
@@ -510,7 +632,7 @@ def _run(ctx, env):
         dbefore = snapshot(d)
         dids = ident_map(d)
         k2, r = impl.outcome(JC.load, d)
-        case2 = {"value": repr(v)[:300], "dumped": repr(d)[:300], "via": "load"}
+        case2 = dict(case, dumped=repr(d)[:300], via="load")
         if snapshot(d) != dbefore or ident_map(d) != dids:
             ctx.violate(case2, "load modified its argument", key="load-mutates-plain")
         if k2 != "ok":
@@ -519,15 +641,20 @@ def _run(ctx, env):
             m3 = expect_equal(v, r)
             if m3:
                 ctx.violate(case2, m3, key="roundtrip:" + m3.split(":")[1][:30] if ":" in m3 else m3[:40])
+        sd = kshape(v)
+        if vtext is None:
+            ctx.count(kind="plain/%s/nonfinite-float (monitor only)" % origin)
+            continue
         # correspondence
         lines.append("jcdump %s %s %s %s" % (lean_cfg, lean_env, args_none, vtext))
         expect.append(("dump", has_multiset(v), impl.canon_outcome(k, d, keep_arg=())))
         lines.append("jcload L0 %s %s" % (world, pyval.enc(d)))
         expect.append(("load", False, (impl.canon_outcome(k2, r, keep_arg=()), [], snapshot(d))))
-        sd = kshape(v)
-        ctx.count(case_repr={"value": repr(v)[:200], "dump": repr(d)[:200]} if origin != "leaf" else None,
+        ctx.count(case_repr={"value": repr(v)[:200], "dump": repr(d)[:200]} if origin not in ("leaf", "wide") else None,
                   nontrivial_key=("plain", vtext.split(" ")[0][0], sd) if isinstance(v, (list, tuple, dict, set, frozenset)) else None,
                   kind="plain/%s/%s" % (origin, type(v).__name__))
+    ctx.extra["nonfinite_float_cases_monitor_only"] = nonfinite_cases
+    ctx.extra["container_dict_key_cases"] = container_key_cases
 
     # dump with ignore lists: neither the `ignore` argument nor an object's own ignore list is modified
     for i in range(ctx.budget(60, 800)):
@@ -566,7 +693,7 @@ def _run(ctx, env):
         descs.extend(("sys", x) for x in sysd)
     else:
         descs.extend(("sys", sysd[i]) for i in sorted(ctx.rng.sample(range(len(sysd)), 250)))
-    for _ in range(ctx.budget(500, 8000)):
+    for _ in range(ctx.budget(1500, 8000)):
         descs.append(("random", wrap(ctx.rng, descriptor(ctx.rng, 2), 2)))
     local_tables = [None, {"LocalSlot": env.cls["Loc"]}, {"LocalSlot": env.cls["Loc"], "DictBean": env.cls["D"]}]
     for origin, dsc in descs:
@@ -577,7 +704,17 @@ def _run(ctx, env):
             continue
         before = snapshot(dsc)
         drepr = repr(dsc)[:600]
+        members = jc_members(dsc)
+        ids_before = ident_map(dsc)
         out, imports, after, (k, v) = run_load(dsc, classes, env)
+        broken = jc_identity_broken(members)
+        if after == before and (broken or ident_map(dsc) != ids_before):
+            ctx.violate({"argument_enc": dtext, "argument_repr": drepr,
+                         "classes": sorted(classes) if classes else None, "via": "load",
+                         "outcome": out.split(" ")[0] + " " + (type(v).__name__ if k == "err" else "")},
+                        "load replaced an object of its argument by an equal copy (%s): %s"
+                        % ("it raised %s" % type(v).__name__ if k == "err" else "success", broken or "a container was rebuilt"),
+                        key="load-replaces-member:" + ("fail" if k == "err" else "ok"))
         if after != before:
             ctx.violate({"argument_enc": dtext, "argument_repr": drepr,
                          "classes": sorted(classes) if classes else None, "via": "load",
@@ -619,7 +756,13 @@ def _run(ctx, env):
                            "inspect.getmodule are represented by the class environment handed to the model; the real classes "
                            "are generated from the same description (harness/jcenv.py)")
     ctx.assumptions.append("dump has no statement writing to its parameters: extracted (Generated.dumpNonFreshWrites) and "
-                           "monitored by deep snapshots; the model of dump is therefore a function of the value")
+                           "monitored by deep snapshots and identity maps (containers of up to a few hundred items); the model of "
+                           "dump is therefore a function of the value")
+    ctx.assumptions.append("NaN and +-Infinity are outside the float domain of the models (DESIGN 3.2): %d generated values "
+                           "containing them were decided by the monitor alone" % ctx.extra.get("nonfinite_float_cases_monitor_only", 0))
+    ctx.assumptions.append("the clause 'only dicts, lists and primitives' is checked on dict keys too when the keys of the input "
+                           "are primitives; a key that is itself a tuple or a frozenset is kept as it is by dump (no JSON form "
+                           "exists for it): %d such inputs" % ctx.extra.get("container_dict_key_cases", 0))
 
 
 def replay(payload):
@@ -627,21 +770,74 @@ def replay(payload):
     print("replaying", json.dumps(case, default=repr)[:1000])
     env = c15_env().install()
     try:
-        arg = pyval.from_tree(pyval.parse(case["argument_enc"])) if case.get("argument_enc") else None
-        if arg is None:
-            print("plain-data case: value", case.get("value"))
-            return 0
+        if not case.get("argument_enc"):
+            return _replay_plain(case)
+        arg = pyval.from_tree(pyval.parse(case["argument_enc"]))
         classes = None
         if case.get("classes"):
             classes = dict((n, env.cls["Loc" if n == "LocalSlot" else "D"]) for n in case["classes"])
         before = snapshot(arg)
+        members = jc_members(arg)
+        ids_before = ident_map(arg)
         k, v = impl.outcome(JC.load, arg, classes)
         print("load ->", k, repr(v)[:200])
         after = snapshot(arg)
         if before != after:
             print("VIOLATION reproduced: argument changed\n before %s\n after  %s" % (before, after))
             return 1
+        broken = jc_identity_broken(members)
+        if broken or ident_map(arg) != ids_before:
+            print("VIOLATION reproduced: an object of the argument was replaced by an equal copy: %s" % (broken or "container rebuilt"))
+            return 1
         print("argument unchanged")
         return 0
     finally:
         env.uninstall()
+
+
+def _replay_plain(case):
+    """A plain-data case: the value is stored in the codec (or, for NaN / Infinity, as a Python literal of floats)."""
+    if case.get("value_enc"):
+        v = pyval.from_tree(pyval.parse(case["value_enc"]))
+    elif case.get("value_py"):
+        v = eval(case["value_py"], {"__builtins__": {}}, {"inf": float("inf"), "nan": float("nan"), "frozenset": frozenset,
+                                                          "set": set})
+    else:
+        print("no value recorded")
+        return 0
+    cfg = impl.jsonrpclib.config.Config()
+    hit = 0
+    before, ids_before = snapshot(v), ident_map(v)
+    k, d = impl.outcome(JC.dump, v, config=cfg)
+    print("dump ->", k, repr(d)[:300])
+    if snapshot(v) != before or ident_map(v) != ids_before:
+        print("VIOLATION reproduced: dump modified its argument: %s -> %s" % (before[:300], snapshot(v)[:300]))
+        hit = 1
+    if k != "ok":
+        print("VIOLATION reproduced: dump raised on plain data")
+        return 1
+    m = only_json_nodes(d, keys=primitive_keys(v))
+    if m:
+        print("VIOLATION reproduced: " + m)
+        hit = 1
+    if string_keys(v):
+        try:
+            m2 = expect_equal(d, json.loads(json.dumps(d)), "json round trip of dump(v)")
+        except (TypeError, ValueError) as ex:
+            m2 = "not serialisable: %s" % ex
+        if m2:
+            print("VIOLATION reproduced: " + m2)
+            hit = 1
+    dbefore, dids = snapshot(d), ident_map(d)
+    k2, r = impl.outcome(JC.load, d)
+    print("load ->", k2, repr(r)[:300])
+    if snapshot(d) != dbefore or ident_map(d) != dids:
+        print("VIOLATION reproduced: load modified its argument")
+        hit = 1
+    m3 = ("load raised %s" % type(r).__name__) if k2 != "ok" else expect_equal(v, r)
+    if m3:
+        print("VIOLATION reproduced: " + m3)
+        hit = 1
+    if not hit:
+        print("no violation")
+    return hit
